@@ -44,9 +44,11 @@ ASSUMPTIONS = [
     "a tag is negated iff its prefix starts with 'not' (docs v1.2.5 'Active Tag Logic'); this is applied to custom prefixes too",
     "category syntax is word characters with dot-separated parts (all documented examples); other spellings are not generated",
     "a tag that can be split in more than one way by the configured separator is ambiguous and skipped (label 'ambiguous')",
-    "plain (non ValueObject) current values are strings; None / non-string plain values are not generated",
+    "plain (non ValueObject) current values are strings or None (known category whose value is unset: matches no tag "
+    "value); other non-string plain values are not generated",
     "number tag values are [+-]digits or clearly malformed; bool tag values are the six documented words (lower case) or clearly malformed",
-    "providers of a CompositeActiveTagValueProvider hold disjoint categories and do not change between the two queries",
+    "providers of a CompositeActiveTagValueProvider hold disjoint categories (values may change between decisions only in "
+    "the 'changing lazy values' sub-check)",
     "with ignore_unknown_categories=False an unknown category behaves as a known one whose value matches nothing "
     "(features/tags.active_tags.feature)",
     "a value_separator is taken literally (sub-check (e), own clause C19.separator-not-literal)",
@@ -120,6 +122,8 @@ _REF_OPS = {
 
 def ref_matches(desc, tag_value):
     """Does the tag value match the current value described by `desc`?"""
+    if desc is None:
+        return False            # a known category whose current value is None (unset): matches no tag value
     if isinstance(desc, str):
         return desc == tag_value
     op = _REF_OPS[desc.get("op") or "eq"]
@@ -175,6 +179,8 @@ def _behave_op(name):
 
 def build_value(desc, force_lazy=False, wrap_plain=False):
     from behave.tag_matcher import BoolValueObject, NumberValueObject, ValueObject
+    if desc is None:
+        return ValueObject((lambda: None) if force_lazy else None) if wrap_plain else None
     if isinstance(desc, str):
         if not wrap_plain:
             return desc
@@ -250,7 +256,10 @@ def check_provider_protocol(res, provider, values, where):
         for category in sorted(values):
             got = provider.get(category, None)
             desc = values[category]
-            bad = (got != desc) if isinstance(desc, str) else (got is None or isinstance(got, str))
+            if desc is None:
+                bad = got is not None
+            else:
+                bad = (got != desc) if isinstance(desc, str) else (got is None or isinstance(got, str))
             if bad:
                 res.fail("C19.provider-get", "get(%r, None) #%d returned %s; %s"
                          % (category, attempt, _shown(got), where()))
@@ -477,6 +486,8 @@ def check(case):
         return check_version(res, case)
     if kind == "changing":
         return check_changing(res, case)
+    if kind == "setup":
+        return check_setup(res, case)
     cfg = case.get("cfg")
     values_list = case["values"]
     modes = case["modes"]
@@ -494,6 +505,62 @@ def check(case):
     if kind == "literal-sep":
         res.label("regex-special-separator")
     res.labels = sorted(set(res.labels))
+    return res
+
+
+SETUP_MODES = ["dict", "atvp", "composite-dict", "composite-atvp", "composite-mixed"]
+
+
+def check_setup(res, case):
+    """The documented way to configure current values: setup_active_tag_values(provider, userdata) in
+    before_all -- "only values for keys that are already present are updated" -- then decisions are made
+    against the configured values."""
+    from behave.tag_matcher import ActiveTagValueProvider, CompositeActiveTagValueProvider, setup_active_tag_values
+    tags, cfg, mode = case["tags"], case.get("cfg"), case["mode"]
+    initial, overrides = case["values"], case["overrides"]
+    cats = sorted(initial)
+    _prefixes, _sep, ignore_unknown = norm_cfg(cfg)
+    active, _ordinary, ambiguous = parse_tags(tags, cfg)
+    if ambiguous:
+        res.label("ambiguous")
+        return res
+    built = {c: build_value(initial[c]) for c in cats}
+    first, second = {c: built[c] for c in cats[0::2]}, {c: built[c] for c in cats[1::2]}
+    if mode == "dict":
+        provider = dict(built)
+    elif mode == "atvp":
+        provider = ActiveTagValueProvider(dict(built))
+    elif mode == "composite-dict":
+        provider = CompositeActiveTagValueProvider([{}, first, second])
+    elif mode == "composite-atvp":
+        provider = CompositeActiveTagValueProvider([ActiveTagValueProvider(first), ActiveTagValueProvider(second)])
+    elif mode == "composite-mixed":
+        provider = CompositeActiveTagValueProvider([first, ActiveTagValueProvider(second)])
+    else:
+        raise ValueError(mode)
+    if case.get("asked_before"):
+        # some categories were already looked up through the provider before the configuration arrives
+        for c in cats[:1]:
+            provider.get(c)
+    setup_active_tag_values(provider, dict(overrides))
+    merged = dict(initial)
+    for c, v in overrides.items():
+        if c in merged:
+            merged[c] = v
+    matcher = build_active_matcher(provider, cfg)
+    expected = ref_excluded(active, merged, ignore_unknown)
+    excl = matcher.should_exclude_with(list(tags))
+    res.evals = 1
+    if bool(excl) != expected:
+        res.fail("C19.configured-values", "after setup_active_tag_values(provider, %r): should_exclude_with=%r, the documented "
+                 "logic gives %r for the configured values %r; %s"
+                 % (overrides, excl, expected, merged, _describe(tags, merged, "setup:" + mode, cfg)), mode=mode)
+    res.label("setup_active_tag_values", "setup:" + mode)
+    if any(c in initial and initial[c] != v for c, v in overrides.items()):
+        res.label("setup:overrides-known-category")
+        res.nontrivial = True
+    if any(c not in initial for c in overrides):
+        res.label("setup:unknown-category-in-data")
     return res
 
 
@@ -523,7 +590,7 @@ def check_changing(res, case):
         provider = {}
         for c in cats:
             d = worlds[0][c]
-            if isinstance(d, str):
+            if d is None or isinstance(d, str):
                 provider[c] = (lambda c=c: cell["now"][c])
             else:
                 cls = {"value": ValueObject, "number": NumberValueObject, "bool": BoolValueObject}[d["kind"]]
@@ -667,7 +734,7 @@ def check_composite(res, case):
 
 
 def _shape(d):
-    return "str" if isinstance(d, str) else (d.get("kind"), d.get("op"))
+    return "str" if (d is None or isinstance(d, str)) else (d.get("kind"), d.get("op"))
 
 
 def valid_case(case):
@@ -687,12 +754,16 @@ def valid_case(case):
         return cfg_ok(m.get("cfg")) and all(value_ok(d) for d in m["values"].values())
 
     def value_ok(d):
-        return isinstance(d, str) or (isinstance(d, dict) and "kind" in d and "value" in d)
+        return d is None or isinstance(d, str) or (isinstance(d, dict) and "kind" in d and "value" in d)
 
     if case.get("kind") == "composite":
         return all(member_ok(m) for m in case["members"])
     if case.get("kind") == "version":
         return bool(case.get("tags")) and case.get("op") in _VERSION_OPS
+    if case.get("kind") == "setup":
+        return (cfg_ok(case.get("cfg")) and case.get("mode") in SETUP_MODES and isinstance(case.get("overrides"), dict)
+                and all(isinstance(v, str) for v in case["overrides"].values())
+                and all(value_ok(d) for d in case["values"].values()))
     if case.get("kind") == "changing":
         worlds = case.get("values") or []
         return (cfg_ok(case.get("cfg")) and len(worlds) >= 2 and all(sorted(w) == sorted(worlds[0]) for w in worlds)
@@ -854,6 +925,8 @@ def gen_world(rnd, separators=SEPARATOR_POOL, p_custom=0.6, dotted=True):
     for i, cat in enumerate(cats):
         if i < n_known:
             values[cat], hints[cat] = gen_value_desc(rnd)
+            if rnd.random() < 0.06:
+                values[cat] = None      # known category, current value unset (e.g. os.environ.get(...) is None)
         else:
             hints[cat] = STRING_POOL[:5] + ["1", "yes"]
     tags = []
@@ -884,11 +957,30 @@ def gen_matrix_case(rnd):
     return case
 
 
+def gen_setup_case(rnd):
+    cfg, values, tags = gen_world(rnd, p_custom=0.3)
+    values = {c: d for c, d in values.items() if isinstance(d, str)}    # userdata holds text
+    tag_values = [t.split("=", 1)[1] for t in tags if "=" in t and not t.endswith("=")]
+    overrides = {}
+    for c in sorted(values):
+        if rnd.random() < 0.6:
+            overrides[c] = rnd.choice(tag_values + [values[c], values[c] + "x", "other"])
+    if rnd.random() < 0.4:
+        overrides["zz.unknown"] = rnd.choice(tag_values + ["x"])
+    case = {"kind": "setup", "tags": tags, "values": values, "overrides": overrides, "mode": rnd.choice(SETUP_MODES),
+            "asked_before": rnd.random() < 0.3}
+    if cfg is not None:
+        case["cfg"] = cfg
+    return case
+
+
 def gen_changing_case(rnd):
     cfg, values, tags = gen_world(rnd, p_custom=0.3)
     other = {}
     for c, d in values.items():
-        if isinstance(d, str):
+        if d is None:
+            other[c] = "other"
+        elif isinstance(d, str):
             pool = [d, d + "x", "other"] + [t.split("=", 1)[1] for t in tags if "=" in t and not t.endswith("=")]
             other[c] = rnd.choice(pool)
         else:
@@ -963,6 +1055,7 @@ def explore(rec):
     # (c)-(e)
     rec.hyp("random-configuration", _strategy(gen_matrix_case), 60000 if quick else 1500000)
     rec.hyp("composite-matcher", _strategy(gen_composite_case), 24000 if quick else 400000)
+    rec.hyp("configured-values", _strategy(gen_setup_case), 12000 if quick else 200000)
     rec.hyp("changing-lazy-values", _strategy(gen_changing_case), 12000 if quick else 200000)
     rec.hyp("regex-special-separator", _strategy(gen_literal_sep_case), 6000 if quick else 60000)
 
@@ -975,6 +1068,8 @@ def required_labels(tier):
              "unknown-not-ignored", "via:subclass", "via:attr", "regex-special-separator",
              "composite-matcher", "composite-members-disagree", "composite-nested", "composite-predicate-member"]
             + ["provider:" + m for m in MODES + ["none"]]
+            + ["setup_active_tag_values", "setup:overrides-known-category", "setup:unknown-category-in-data"]
+            + ["setup:" + m for m in SETUP_MODES]
             + ["changing-lazy-values", "changing:verdict-flips"] + ["changing:" + m for m in CHANGING_MODES])
 
 
